@@ -39,6 +39,9 @@ type c01Cfg struct {
 	BMax      int64        `json:"batch_max_size,omitempty"`
 	Script    []string     `json:"script"`
 	Plan      []crashPoint `json:"plan,omitempty"`
+	// StartIndex: read = write index found on disk by the first incarnation (an empty queue that has been in use): the
+	// item indexes of the run then lie around a power of two instead of starting at 0
+	StartIndex uint64 `json:"start_index,omitempty"`
 }
 
 var (
@@ -274,7 +277,7 @@ func shapeOf(line string) string {
 			if k := strings.IndexAny(key, ",)"); k >= 0 {
 				key = key[:k]
 			}
-			if _, err := strconv.Atoi(key); err == nil {
+			if _, err := strconv.ParseUint(key, 10, 64); err == nil {
 				key = "item"
 			}
 			kind = op[:j] + "(" + key + ")"
@@ -432,7 +435,7 @@ func (l *c01Life) run() {
 	}
 	left := 0
 	for _, k := range l.disk.Keys() {
-		if _, err := strconv.Atoi(k); err == nil {
+		if _, err := strconv.ParseUint(k, 10, 64); err == nil {
 			left++
 		}
 	}
@@ -446,6 +449,13 @@ func runLife(r *simkit.Run, cfg c01Cfg, plan []crashPoint) *c01Life {
 		final: map[int]bool{}, handed: map[int]int{}, recFinal: map[string]bool{}, recOf: map[int]int{}, callSeq: map[string]int{}, inCall: map[string][]string{}}
 	for _, cp := range plan {
 		l.plan[cp.Inc] = cp
+	}
+	if cfg.StartIndex > 0 {
+		le := make([]byte, 8)
+		for i := 0; i < 8; i++ {
+			le[i] = byte(cfg.StartIndex >> (8 * uint(i)))
+		}
+		l.disk.Restore(map[string][]byte{"ri": le, "wi": append([]byte(nil), le...)})
 	}
 	l.run()
 	return l
@@ -468,6 +478,7 @@ func c01Config(tp *simkit.Tape) c01Cfg {
 		c.BMax = int64(tp.Range(1, 3))
 		c.BMin = int64(tp.Range(0, int(c.BMax)))
 	}
+	c.StartIndex = []uint64{0, 0, 254, 65534, 4294967294, 1<<53 - 2, 1<<62 - 1}[tp.Draw(7)]
 	n := tp.Range(3, 10)
 	ops := []string{"E", "Ao", "Ap", "At", "T", "Ro", "Rt"}
 	for i := 0; i < n; i++ {
@@ -503,7 +514,7 @@ func planToTape(plan []crashPoint) []int {
 }
 
 func planKey(cfg c01Cfg, plan []crashPoint) string {
-	return fmt.Sprintf("%d/%d/%v/%v/%d/%d/%v|%v", cfg.Cap, cfg.Consumers, cfg.Retry, cfg.Batcher, cfg.BMin, cfg.BMax, cfg.Script, plan)
+	return fmt.Sprintf("%d/%d/%v/%v/%d/%d/%d/%v|%v", cfg.Cap, cfg.Consumers, cfg.Retry, cfg.Batcher, cfg.BMin, cfg.BMax, cfg.StartIndex, cfg.Script, plan)
 }
 
 func runC01(r *simkit.Run) {
